@@ -91,6 +91,16 @@ for pid in sorted(md.CLAIMED):
         else:
             c["text"] = c["text"] + "  Round 10: " + text + "."
         c["technique"] = c["technique"] + "; " + tech
+    add10t = getattr(md, "ADDENDA_R10T", {}).get(pid)
+    if add10t:
+        ref, text, tech = add10t
+        c["design_ref"] = c["design_ref"] + ", " + ref
+        if "  Not decided:" in c["text"]:
+            head, tail = c["text"].split("  Not decided:", 1)
+            c["text"] = head + "  Round-10 triage: " + text + ".  Not decided:" + tail
+        else:
+            c["text"] = c["text"] + "  Round-10 triage: " + text + "."
+        c["technique"] = c["technique"] + "; " + tech
     checks.append({
         "property_id": pid,
         "quick_cmd": "./check %s --tier quick" % pid,
